@@ -1060,7 +1060,11 @@ func (ctx *Context) evaluate() {
 				return
 			}
 
-			num, _, _, detailText := RollWoD(ctx.RandSrc, addLine, wodState.pool, wodState.points, wodState.threshold, wodState.isGE, getRollMode())
+			// 每一轮骰点都计入算力，避免加骰线很低、面数很大时骰出天文数字的骰子
+			num, _, _, detailText, within := rollWoD(ctx.RandSrc, addLine, wodState.pool, wodState.points, wodState.threshold, wodState.isGE, getRollMode(), func(n IntType) bool { return !numOpCountAdd(n) })
+			if !within {
+				return
+			}
 			ret := NewIntVal(num)
 			details[len(details)-1].Ret = ret
 			details[len(details)-1].Text = detailText
@@ -1093,7 +1097,10 @@ func (ctx *Context) evaluate() {
 			if !doubleCrossCheck(ctx, addLine, dcState.pool, dcState.points) {
 				return
 			}
-			success, _, _, detailText := RollDoubleCross(ctx.RandSrc, addLine, dcState.pool, dcState.points, getRollMode())
+			success, _, _, detailText, within := rollDoubleCross(ctx.RandSrc, addLine, dcState.pool, dcState.points, getRollMode(), func(n IntType) bool { return !numOpCountAdd(n) })
+			if !within {
+				return
+			}
 			ret := NewIntVal(success)
 			details[len(details)-1].Ret = ret
 			details[len(details)-1].Text = detailText
